@@ -668,7 +668,98 @@ func writesConstHeader(fn *ssa.Function, name string) bool {
 	return found
 }
 
+// checkAccumulators: a size accumulator of a payload loop adds, in each
+// iteration, only a value produced in that iteration (a constant or a call
+// result), never a value carried over from an earlier iteration.
+func checkAccumulators(c *Ctx, r *Report) {
+	n := 0
+	for _, pk := range c.Packagers {
+		w := payloadWriter(c, pk)
+		if w == nil || pk.Format == "rpm" {
+			continue
+		}
+		fns := []*ssa.Function{w}
+		for _, fn := range fns {
+			forEachInstr(fn, func(in ssa.Instruction) {
+				bo, ok := in.(*ssa.BinOp)
+				if !ok || bo.Op != token.ADD || bo.Type().String() != "int64" {
+					return
+				}
+				acc, ok := bo.X.(*ssa.Phi)
+				if !ok {
+					return
+				}
+				feedsBack := false
+				for _, e := range acc.Edges {
+					if e == ssa.Value(bo) {
+						feedsBack = true
+					}
+				}
+				if !feedsBack {
+					return
+				}
+				n++
+				header := acc.Block()
+				stale := ""
+				seen := map[ssa.Value]bool{}
+				var walk func(v ssa.Value, d int)
+				walk = func(v ssa.Value, d int) {
+					if d > 8 || seen[v] {
+						return
+					}
+					seen[v] = true
+					if p, ok := v.(*ssa.Phi); ok {
+						if p.Block() == header && p != acc {
+							stale = p.Comment
+							if stale == "" {
+								stale = p.Name()
+							}
+							return
+						}
+						for _, e := range p.Edges {
+							walk(e, d+1)
+						}
+					}
+				}
+				walk(bo.Y, 0)
+				r.Check(stale == "", "F9-acc", fmt.Sprintf("%s: size accumulator in %s", pk.Format, c.funcKey(fn)), c.instrPos(bo),
+					"the value added per entry must be produced in the same iteration; a loop-carried value ("+stale+") would re-add an earlier entry's size for entries that have none (directories, symlinks)")
+			})
+		}
+	}
+	r.Floor("F9-acc", n, 2)
+}
+
+// checkPAXChecksum: apk's per-file checksum record is set on every path
+// before the header is written.
+func checkPAXChecksum(c *Ctx, r *Report) {
+	pk := c.PackagerByFormat("apk")
+	if pk == nil {
+		return
+	}
+	n := 0
+	for _, fn := range sortedFuncs(c, c.Reach(pk.Package)) {
+		forEachInstr(fn, func(in ssa.Instruction) {
+			mu, ok := in.(*ssa.MapUpdate)
+			if !ok || constOrEmpty(mu.Key) != "APK-TOOLS.checksum.SHA1" {
+				return
+			}
+			n++
+			okDom := false
+			forEachInstr(fn, func(i2 ssa.Instruction) {
+				if wh, ok := i2.(*ssa.Call); ok && calleeIs(wh, "archive/tar", "Writer", "WriteHeader") {
+					okDom = instrDominates(mu, wh)
+				}
+			})
+			r.Check(okDom, "O1-pax", "apk: per-file SHA-1 record set before every header write in "+c.funcKey(fn), c.instrPos(mu), "the APK-TOOLS.checksum.SHA1 record must be set on every path to WriteHeader (also for empty files), otherwise apk cannot verify that member")
+		})
+	}
+	r.Floor("O1-pax", n, 1)
+}
+
 func checkSizes(c *Ctx, r *Report, pa *provAnalysis) {
+	checkAccumulators(c, r)
+	checkPAXChecksum(c, r)
 	// deb / ipk: InstalledSize = accumulator / 1024, accumulator fed from entry sizes
 	for _, format := range []string{"deb", "ipk"} {
 		pk := c.PackagerByFormat(format)
